@@ -60,7 +60,7 @@ type fakeProvider struct {
 }
 
 func (p *fakeProvider) Start(autoReconnect bool, cb api.MdnsResolveCB) bool { return true }
-func (p *fakeProvider) Shutdown()                                            {}
+func (p *fakeProvider) Shutdown()                                           {}
 func (p *fakeProvider) Announce(serviceName string, port int, txt []string) error {
 	p.mu.Lock()
 	defer p.mu.Unlock()
@@ -203,5 +203,7 @@ func coqCats(cs []api.DeviceCategoryType) string {
 	}
 	return vh.List(ys)
 }
+
+func sleepShort() { time.Sleep(10 * time.Microsecond) }
 
 var _ = net.IPv4
